@@ -12,8 +12,8 @@ using namespace vh;
 
 // loop bodies with a designed transient length t and period p of the tracked state
 static Circuit loop_circuit(Rng &rng, Stats &st, uint64_t &reps_out, bool huge) {
-    int tmpl = (int)rng.below(6);
-    if (huge && tmpl == 5) tmpl = 1;   // template 5 keeps unreset state whose sensitivity grows with the iteration count: not foldable, only run at small counts
+    int tmpl = (int)rng.below(8);
+    if (huge && (tmpl == 5 || tmpl == 7)) tmpl = 1;   // template 5 keeps unreset state whose sensitivity grows with the iteration count: not foldable, only run at small counts
     int p = 1 + (int)rng.below(6);      // period
     int t = (int)rng.below(7);          // transient
     uint32_t n = (uint32_t)std::max(2, p);
@@ -76,6 +76,22 @@ static Circuit loop_circuit(Rng &rng, Stats &st, uint64_t &reps_out, bool huge) 
             body.safe_append_u("DEPOLARIZE2", {0, 1}, {0.125});
             body.safe_append_u("MR", {1});
             body.safe_append_u("DETECTOR", {TARGET_RECORD_BIT | 1u});
+            break;
+        }
+        case 6:  // the reference measurement value alternates between iterations (state period 2); detector compares across one period
+            c.safe_append_u("M", {0, 0});
+            body.safe_append_u("X_ERROR", {0}, {0.125});
+            body.safe_append_u("X", {0});
+            body.safe_append_u("M", {0});
+            body.safe_append_u("DETECTOR", {TARGET_RECORD_BIT | 1u, TARGET_RECORD_BIT | 3u});
+            break;
+        case 7: {  // a single excitation travelling around the ring: the measured value is 1 once per n iterations
+            c.safe_append_u("X", {(uint32_t)rng.below(n)});
+            for (uint32_t i = 0; i < n; i++) c.safe_append_u("M", {0});
+            body.safe_append_u("DEPOLARIZE1", {0}, {0.125});
+            body.safe_append_u("M", {0});
+            body.safe_append_u("DETECTOR", {TARGET_RECORD_BIT | 1u, TARGET_RECORD_BIT | (uint32_t)(n + 1)});
+            rotate(body);
             break;
         }
         case 5:  // repetition-code-like round with ancilla and pair detectors
